@@ -59,6 +59,10 @@ Seeded changes (second round):
   C11-2 (closed re-check after dictionary negotiation folded into the later one that does not close the codec):
         ConnDictConn.tla (connect command x close() interleavings), close() run by the stale timer while the connect
         command is held inside the engine; caught as dict:codec-never-closed:close-during-negotiation / -dictionary.
+  C11-4 (websocketTransport.writeData arms the pending encoder only on the single-message path): ConnDict.tla records the
+        write path of every frame (single / batched) and has scenarios with ConnectReply.WriteDelay > 0 and a Client.Send
+        from OnConnect, so that frame 1 = [connect reply, push] leaves through WriteMany; later frames (single, or batched
+        pushes) must be Encode outputs; caught as dict:frame-not-encoded:after-batched-connect-reply.
 
   C09-3 (checkPong flips a consumed lastPing back to positive): witness schedule wit_pong.cfg (ping, pong, pong check
         passes, second pong before the next ping) replayed on every run; caught as pong:not-closed.
@@ -486,7 +490,7 @@ def c11(c):
     c.cov['rule'] = ('(a) behaviours of ConnLife.tla with pushes (Client.Send through Hub().Connections(), publications without history to the gated connect-time server-side subscription, publications '
                      'WITH history/offset to the gated, an ungated non-positioned and a positioned connect-time subscription; 5 witness schedules, one per kind) placed while '
                      'the connect command is parked after addClient (inside Broker.Subscribe) / in OnConnect / later, replayed by gates, every frame written before the connect reply reported by kind; (b) every scenario of ConnDict.tla (<= 2-3 frames of '
-                     'kinds rpc reply / push after the connect reply, closed by the client, Client.Disconnect or Node.Shutdown, or closed by the stale timer during OnConnecting) on a real node '
+                     'kinds rpc reply / push after the connect reply, closed by the client, Client.Disconnect or Node.Shutdown, or closed by the stale timer during OnConnecting; also with a write delay and a Send from OnConnect, so that the connect reply leaves in a batched frame) on a real node '
                      'behind the real WebsocketHandler with a raw WebSocket client and a recording DictionaryCompression engine; (c) the behaviours of ConnDictConn.tla (connect command split into '
                      'OnConnecting / closed check / NewDictionaryConnection / Dictionary / install / closed re-check / registration / reply, close() split into status / writer / codec / transport) '
                      'in which close() runs while the connect command is held inside OnConnecting, NewDictionaryConnection or Dictionary (stale timer fired by the harness scheduler, the engine '
@@ -509,7 +513,7 @@ _note36 = ('Bounds: exhaustive 4 s / 5 actions (quick), 6 s / 7 actions (thoroug
            'Ping 1 s, pong timeout 0.4 s, grace delays 1 s, expiries 1-2 s, refresh extends by 2 s. Trusted: TLC, lib/tlaparse.py, harness TimerScheduler and monitor code, wall clock.')
 _note8 = ('Bounds: 2 connections, one connect-time server-side subscription (three in the push part), expiring credentials on connection 2 (quick) / either (thorough, replay), <= 2 (quick) / 3 (thorough) environment actions exhaustively with arbitrarily delayed closers; replay 400 / 2500 simulated '
           'behaviours of <= 40 steps with <= 5 environment actions. Trusted: TLC, lib/tlaparse.py, harness gates and monitor code.')
-_note11 = _note8 + ' Dictionary compression: all scenarios with <= 2 (quick) / 3 (thorough) frames after the connect reply x 3 closers + close during OnConnecting; connect command x close(): every interleaving on the model, 16 schedules (4 hold points x dictionary full / unknown id x with / without a later frame) replayed.'
+_note11 = _note8 + ' Dictionary compression: all scenarios with <= 2 (quick) / 3 (thorough) frames after the connect reply x 3 closers + close during OnConnecting + connect reply in a batched frame (write delay 60 ms, Send from OnConnect) followed by <= 2 / 3 single frames or one batched frame; connect command x close(): every interleaving on the model, 16 schedules (4 hold points x dictionary full / unknown id x with / without a later frame) replayed.'
 META = {
     'C11': dict(level='model_checking',
                 text='ConnLife.tla (see C08) with pushes (Client.Send, publications without and with an offset to gated / ungated / positioned connect-time subscriptions) aimed at a connection whose connect command is still under way: the monitor "the first frame is the connect reply" is checked by TLC on the '
